@@ -65,13 +65,14 @@ def key_term(k, bits):
 class Store:
     """key (unsigned, key_bits) -> value (unsigned, val_bits), optionally with presence."""
 
-    def __init__(self, e, name, key_bits, val_bits, presence=False, export=None, zero_key=None, _share=None):
+    def __init__(self, e, name, key_bits, val_bits, presence=False, export=None, zero_key=None, _share=None, zero_init=False):
         self.e = e
         self.name = name
         self.kb = key_bits
         self.vb = val_bits
         self.presence = presence
         self.zero_key = zero_key  # key whose initial value is hard 0 (x0)
+        self.zero_init = zero_init if _share is None else _share.zero_init  # initially empty store
         self.sym = e.mode == "sym"
         if _share is not None:
             self.log = list(_share.log)
@@ -81,7 +82,7 @@ class Store:
             self.log = []  # sym: (key_term, val_term|None)  (None = deleted; unused)
             self.conc = {}
             self.cpres = set() if presence else None
-        if self.sym:
+        if self.sym and not self.zero_init:
             fresh = name not in e.ufs
             f = e.uf(name, key_bits, val_bits, export)
             if presence:
@@ -96,6 +97,8 @@ class Store:
 
     # -- symbolic side ---------------------------------------------------------------------------
     def init_term(self, kt):
+        if self.zero_init:
+            return z3.BitVecVal(0, self.vb)
         return self.e.apply_uf(self.name, kt)
 
     def _relevant(self, kt):
@@ -136,7 +139,7 @@ class Store:
         base, pend = self._relevant(kt)
         if base is not None:
             return z3.BoolVal(True)
-        t = self.e.apply_uf(self.name + "_present", kt)
+        t = z3.BoolVal(False) if self.zero_init else self.e.apply_uf(self.name + "_present", kt)
         for c, wv in pend:
             t = z3.Or(c, t)
         return t
@@ -163,6 +166,8 @@ class Store:
             return self.conc[k]
         if self.zero_key is not None and k == self.zero_key:
             return 0
+        if self.zero_init:
+            return 0
         return self.e.uf_value(self.name, k)
 
     def is_present(self, k):
@@ -170,6 +175,8 @@ class Store:
         if self.sym:
             return self.present_term(key_term(k, self.kb))
         k = builtins.int(k)
+        if self.zero_init:
+            return k in self.cpres
         return k in self.cpres or bool(self.e.uf_value(self.name + "_present", k))
 
     def set(self, k, v):
